@@ -221,13 +221,17 @@ Proof.
     intros H. split; [|reflexivity]. eapply delete_rows_err_batch; eauto.
 Qed.
 
+Lemma names_fielddef_of cols : map fd_name (map fielddef_of cols) = map cd_name cols.
+Proof. rewrite map_map. apply map_ext. intros c. unfold fielddef_of. destruct (cd_type c); reflexivity. Qed.
+
 (* ---------- the statement's error arises before the first page change ---------- *)
 Definition is_err {A} (r : res A) : bool := match r with Err _ => true | _ => false end.
 
 Definition fails_early (s : store) (st : stmt) : bool :=
   match st with
-  | SCreateTable n _ =>
-      (* duplicate table, or a catalog lookup error other than "does not exist" *)
+  | SCreateTable n cols =>
+      (* a column name used twice; duplicate table, or a catalog lookup error other than "does not exist" *)
+      negb (names_distinct (map cd_name cols)) ||
       match rel_offset s n with
       | Err ETableNotExist => false
       | Panic => false
@@ -270,7 +274,9 @@ Proof.
   destruct st as [q|n cds|n| |n|n cols rows|n sets w|n w];
     try (intros _ _; cbn [run_stmt e_store]; apply same_pages_refl).
   - (* CREATE TABLE *)
-    cbn [run_stmt fails_early]. unfold st_create_table. intros _ Hfe.
+    cbn [run_stmt fails_early]. unfold st_create_table. rewrite names_fielddef_of.
+    destruct (names_distinct (map cd_name cds)); [|intros _ _; cbn [e_store]; apply same_pages_refl].
+    cbn [negb orb]. unfold st_create_table0. intros _ Hfe.
     destruct (rel_offset s n) as [o|e1|]; [| |discriminate].
     + cbn [e_store]. apply same_pages_refl.
     + destruct e1; try discriminate; cbn [e_store]; apply same_pages_refl.
